@@ -1,359 +1,11 @@
-//! C06 — the kernel hook redirects exactly the protected connects and records the true caller.
-//! The UNMODIFIED ebpf_cgroup.c runs in user space (see build.rs, csrc/); the agent's own encoders
-//! and decoders (ebpf_obj.rs, AuditEntry accessors, string_to_ip/ip_to_string) run on the very bytes
-//! the C program reads and writes; a Rust reference model says what must happen.
-
-#![allow(non_camel_case_types, dead_code)]
-
-#[path = "/repo/proxy_agent/src/redirector/linux/ebpf_obj.rs"]
-mod ebpf_obj;
-
+//! C06 driver: see `gpa_verif::props::c06`.
 use azure_proxy_agent::common::constants;
-use azure_proxy_agent::redirector::{ip_to_string, string_to_ip, AuditEntry};
-use ebpf_obj::{destination_entry, sock_addr_audit_entry, sock_addr_audit_key, sock_addr_skip_process_entry};
-use gpa_verif::report::{h64, Known, Params, Stats};
-use gpa_verif::runner::{Drive, Outcome};
+use azure_proxy_agent::redirector::{ip_to_string, string_to_ip};
+use gpa_verif::props::c06::*;
+use gpa_verif::report::{Known, Params, Stats};
+use gpa_verif::runner::Drive;
 use proptest::prelude::*;
-use serde::{Deserialize, Serialize};
-use std::collections::{BTreeMap, BTreeSet};
-use std::ffi::CString;
 use std::time::Instant;
-
-#[repr(C)]
-#[derive(Clone, Copy, PartialEq, Eq, Debug)]
-struct bpf_sock_addr {
-    user_family: u32,
-    user_ip4: u32,
-    user_ip6: [u32; 4],
-    user_port: u32,
-    family: u32,
-    type_: u32,
-    protocol: u32,
-    msg_src_ip4: u32,
-    msg_src_ip6: [u32; 4],
-    sk: u64,
-}
-
-#[link(name = "ebpfsim", kind = "static")]
-extern "C" {
-    fn sim_reset();
-    fn sim_set_task(tgid: u32, pid: u32, uid: u32, gid: u32);
-    fn sim_run_connect4(ctx: *mut bpf_sock_addr) -> i32;
-    fn sim_run_kprobe(daddr_be: u32, dport_be: u16, local_port_host: u16, family: u16) -> i32;
-    fn sim_sizeof_sock_addr() -> u32;
-    fn sim_map_info(name: *const libc::c_char, ks: *mut u32, vs: *mut u32, max: *mut u32, ty: *mut u32) -> i32;
-    fn sim_map_update(name: *const libc::c_char, key: *const libc::c_void, value: *const libc::c_void) -> libc::c_long;
-    fn sim_map_delete(name: *const libc::c_char, key: *const libc::c_void) -> libc::c_long;
-    fn sim_map_lookup(name: *const libc::c_char, key: *const libc::c_void, out: *mut libc::c_void) -> i32;
-    fn sim_map_count(name: *const libc::c_char) -> u32;
-}
-
-fn cs(s: &str) -> CString {
-    CString::new(s).unwrap()
-}
-
-const AF_INET: u32 = 2;
-const IPPROTO_TCP: u32 = 6;
-const IPPROTO_UDP: u32 = 17;
-
-#[derive(Clone, Copy, Debug, Serialize, Deserialize, Hash, PartialEq, Eq, PartialOrd, Ord)]
-struct Task {
-    tgid: u32,
-    tid: u32,
-    uid: u32,
-    gid: u32,
-}
-
-#[derive(Clone, Debug, Serialize, Deserialize, Hash)]
-enum Op {
-    SetPolicy { ep: u8, on: bool },
-    Begin { task: u8, ep: u8, udp: bool },
-    /// the kernel reaches tcp_connect for the task's pending connect
-    Finish { task: u8 },
-    /// the kernel gives up the task's pending connect between the two hook points
-    Abort { task: u8 },
-    /// the agent accepts the oldest finished, redirected connection: lookup + decode + remove
-    Accept,
-}
-
-#[derive(Clone, Debug, Serialize, Deserialize, Hash)]
-struct Case {
-    tasks: Vec<Task>,
-    /// index of the task whose process is the agent itself (its pid is in the skip map before the programs are attached)
-    agent: Option<u8>,
-    ops: Vec<Op>,
-}
-
-/// endpoints: the three protected ones, near misses and others (ip as dotted bytes, port)
-const ENDPOINTS: &[([u8; 4], u16)] = &[
-    ([168, 63, 129, 16], 80),
-    ([169, 254, 169, 254], 80),
-    ([168, 63, 129, 16], 32526),
-    ([168, 63, 129, 16], 81),
-    ([168, 63, 129, 17], 80),
-    ([169, 254, 169, 254], 20480), // 80 byte-swapped
-    ([16, 129, 63, 168], 80),      // address byte-swapped
-    ([10, 0, 0, 4], 443),
-    ([127, 0, 0, 1], 3080),
-];
-
-fn task() -> impl Strategy<Value = Task> {
-    (prop::sample::select(vec![100u32, 200, 300, 4000]), 0u32..3, prop::sample::select(vec![0u32, 0, 1000, 1001, 33]), prop::sample::select(vec![0u32, 1000, 100, 27, 0])).prop_map(|(tgid, t, uid, gid)| Task { tgid, tid: tgid + t, uid, gid })
-}
-
-fn op() -> impl Strategy<Value = Op> {
-    prop_oneof![
-        3 => (0u8..ENDPOINTS.len() as u8, prop::bool::weighted(0.8)).prop_map(|(ep, on)| Op::SetPolicy { ep: if ep < 3 || ep % 4 == 0 { ep } else { ep % 3 }, on }),
-        8 => (0u8..6, 0u8..ENDPOINTS.len() as u8, prop::bool::weighted(0.12)).prop_map(|(task, ep, udp)| Op::Begin { task, ep, udp }),
-        8 => (0u8..6).prop_map(|task| Op::Finish { task }),
-        1 => (0u8..6).prop_map(|task| Op::Abort { task }),
-        4 => Just(Op::Accept),
-    ]
-}
-
-fn strategy() -> impl Strategy<Value = Case> {
-    (prop::collection::vec(task(), 2..7), prop::option::weighted(0.7, 0u8..6), prop::collection::vec(op(), 4..48)).prop_map(|(tasks, agent, mut ops)| {
-        // most histories start with the policy the agent installs at start-up
-        let mut pre = vec![Op::SetPolicy { ep: 0, on: true }, Op::SetPolicy { ep: 1, on: true }, Op::SetPolicy { ep: 2, on: true }];
-        pre.append(&mut ops);
-        Case { tasks, agent, ops: pre }
-    })
-}
-
-const RULE: &str = "generator: histories of 7-50 operations over 2-6 tasks (threads of 4 processes, uid and gid drawn independently so that uid != gid is the norm, uid 0 with gid != 0 and the reverse included) and 9 endpoints (the three protected ones, port +/- 1, neighbouring address, byte-swapped port, byte-swapped address, an unrelated address, the proxy's own): the agent's pid placed in the skip map before any connect and SetPolicy(endpoint, on/off), both performed with the agent's own encoders (destination_entry / sock_addr_skip_process_entry bytes go into the program's maps, string_to_ip(PROXY_AGENT_IP) for the value), Begin = run connect4 on a bpf_sock_addr filled as the kernel fills it (network byte order, TCP or UDP), Finish = allocate a source port and run the tcp_connect kprobe on a sock_common built from the possibly rewritten address, Abort = the kernel gives the connect up between the hooks, Accept = the agent's decode path (sock_addr_audit_key::from_source_port, sock_addr_audit_entry::from_array, AuditEntry accessors) + remove. Begin/Finish of different tasks interleave freely. oracle (Rust reference model): rewritten to 127.0.0.1:3080 iff (ip, port, protocol) is in the policy at Begin and the process is not skipped, otherwise the context is byte-identical; after Finish a record keyed (TCP, source port) exists iff the connect was rewritten and decodes to logon_id = uid, process_id = tgid, is_admin = (uid == 0), original ip and port; no record for any other connect; ip_to_string/string_to_ip round-trip; the byte-order constants equal their dotted forms. non-trivial: >= 2 tasks in flight between the phases, >= 1 protected and >= 1 unprotected connect, and >= 1 task with uid != gid; distinct by hash of the history.";
-
-#[derive(Clone, Debug)]
-struct Pending {
-    ip: u32,
-    port: u16,
-    rewritten: bool,
-    udp: bool,
-    ctx_after: bpf_sock_addr,
-}
-
-fn map_lookup(name: &str, key: &[u32]) -> Option<[u32; 5]> {
-    let mut out = [0u32; 16];
-    let rc = unsafe { sim_map_lookup(cs(name).as_ptr(), key.as_ptr() as *const libc::c_void, out.as_mut_ptr() as *mut libc::c_void) };
-    if rc == 0 {
-        Some([out[0], out[1], out[2], out[3], out[4]])
-    } else {
-        None
-    }
-}
-
-fn eval(case: &Case, stats: &mut Stats) -> Outcome {
-    unsafe { sim_reset() };
-    let proxy_ip = string_to_ip(constants::PROXY_AGENT_IP);
-    let proxy_value = destination_entry::from_ipv4(proxy_ip, constants::PROXY_AGENT_PORT).to_array();
-    // reference state
-    let mut policy: BTreeSet<(u32, u16)> = BTreeSet::new(); // (ip in network order as u32, port host order), TCP only
-    let mut skip: BTreeSet<u32> = BTreeSet::new();
-    let mut pending: BTreeMap<u8, Pending> = BTreeMap::new(); // per task index
-    let mut aborted_threads: BTreeSet<(u32, u32)> = BTreeSet::new(); // threads with a stale pending entry after an abort
-    let mut finished: Vec<(u16, Task, u32, u16)> = Vec::new(); // redirected connections awaiting accept: (source port, task, ip, port)
-    let mut next_port: u16 = 40000;
-    let mut expect_records: BTreeMap<u16, (Task, u32, u16)> = BTreeMap::new();
-    let mut max_in_flight = 0usize;
-    let (mut n_prot, mut n_unprot) = (0u32, 0u32);
-    let mut policy_changed_in_flight = false;
-    let ntasks = case.tasks.len();
-    let nbo = |ip: [u8; 4]| u32::from_ne_bytes(ip);
-
-    if let Some(a) = case.agent {
-        let t = case.tasks[a as usize % ntasks];
-        let e = sock_addr_skip_process_entry::from_pid(t.tgid).to_array();
-        let rc = unsafe { sim_map_update(cs("skip_process_map").as_ptr(), e.as_ptr() as *const libc::c_void, e.as_ptr() as *const libc::c_void) };
-        if rc == 0 {
-            skip.insert(t.tgid);
-        }
-    }
-    for (step, op) in case.ops.iter().enumerate() {
-        match op {
-            Op::SetPolicy { ep, on } => {
-                let (ip, port) = ENDPOINTS[*ep as usize % ENDPOINTS.len()];
-                let key = destination_entry::from_ipv4(nbo(ip), port).to_array();
-                if *on {
-                    let rc = unsafe { sim_map_update(cs("policy_map").as_ptr(), key.as_ptr() as *const libc::c_void, proxy_value.as_ptr() as *const libc::c_void) };
-                    if rc != 0 {
-                        continue; // map full (10 entries): the agent's insert fails too
-                    }
-                    policy.insert((nbo(ip), port));
-                } else {
-                    unsafe { sim_map_delete(cs("policy_map").as_ptr(), key.as_ptr() as *const libc::c_void) };
-                    policy.remove(&(nbo(ip), port));
-                }
-                if !pending.is_empty() {
-                    policy_changed_in_flight = true;
-                }
-            }
-            Op::Begin { task, ep, udp } => {
-                let ti = *task as usize % ntasks;
-                let t = case.tasks[ti];
-                // one connect at a time per thread; a thread also must not start a second one while another task index aliases it
-                if pending.contains_key(&(ti as u8)) || pending.keys().any(|k| case.tasks[*k as usize].tgid == t.tgid && case.tasks[*k as usize].tid == t.tid) {
-                    continue;
-                }
-                let (ip, port) = ENDPOINTS[*ep as usize % ENDPOINTS.len()];
-                let proto = if *udp { IPPROTO_UDP } else { IPPROTO_TCP };
-                let mut ctx = bpf_sock_addr { user_family: AF_INET, user_ip4: nbo(ip), user_ip6: [0; 4], user_port: port.to_be() as u32, family: AF_INET, type_: if *udp { 2 } else { 1 }, protocol: proto, msg_src_ip4: 0, msg_src_ip6: [0; 4], sk: 0 };
-                let before = ctx;
-                unsafe {
-                    sim_set_task(t.tgid, t.tid, t.uid, t.gid);
-                    let verdict = sim_run_connect4(&mut ctx);
-                    if verdict != 1 {
-                        return Outcome::fail("hook:connect-not-allowed-to-proceed", format!("step {}: connect4 returned {}", step, verdict));
-                    }
-                }
-                let protected = !*udp && policy.contains(&(nbo(ip), port));
-                let want_rewrite = protected && !skip.contains(&t.tgid);
-                if protected { n_prot += 1 } else { n_unprot += 1 }
-                let rewritten = ctx != before;
-                if want_rewrite {
-                    let mut want = before;
-                    want.user_ip4 = nbo([127, 0, 0, 1]);
-                    want.user_port = constants::PROXY_AGENT_PORT.to_be() as u32;
-                    if ctx != want {
-                        return Outcome::fail(
-                            if rewritten { "hook:protected-connect-rewritten-to-wrong-address" } else { "hook:protected-connect-not-redirected" },
-                            format!("step {} {:?} by {:?}: context after connect4 {:?}, expected {:?} (policy {:?}, skipped processes {:?})", step, op, t, ctx, want, policy, skip),
-                        );
-                    }
-                } else if rewritten {
-                    return Outcome::fail(
-                        if skip.contains(&t.tgid) { "hook:agent-own-connect-touched" } else { "hook:unprotected-connect-touched" },
-                        format!("step {} {:?} by {:?}: context changed from {:?} to {:?} (policy {:?}, skipped {:?})", step, op, t, before, ctx, policy, skip),
-                    );
-                }
-                if want_rewrite {
-                    aborted_threads.remove(&(t.tgid, t.tid));
-                }
-                pending.insert(ti as u8, Pending { ip: nbo(ip), port, rewritten: want_rewrite, udp: *udp, ctx_after: ctx });
-                max_in_flight = max_in_flight.max(pending.len());
-            }
-            Op::Abort { task } => {
-                let ti = (*task as usize % ntasks) as u8;
-                if let Some(p) = pending.remove(&ti) {
-                    if p.rewritten {
-                        let t = case.tasks[ti as usize];
-                        aborted_threads.insert((t.tgid, t.tid));
-                    }
-                }
-            }
-            Op::Finish { task } => {
-                let ti = (*task as usize % ntasks) as u8;
-                let p = match pending.remove(&ti) {
-                    Some(p) => p,
-                    None => continue,
-                };
-                if p.udp {
-                    continue; // no tcp_connect for UDP
-                }
-                let t = case.tasks[ti as usize];
-                let sport = next_port;
-                next_port += 1;
-                unsafe {
-                    sim_set_task(t.tgid, t.tid, t.uid, t.gid);
-                    sim_run_kprobe(p.ctx_after.user_ip4, p.ctx_after.user_port as u16, sport, AF_INET as u16);
-                }
-                let stale = aborted_threads.contains(&(t.tgid, t.tid));
-                if p.rewritten {
-                    expect_records.insert(sport, (t, p.ip, p.port));
-                    finished.push((sport, t, p.ip, p.port));
-                } else if stale {
-                    // the statement does not say what a kernel-aborted connect leaves behind: counted, not asserted
-                    aborted_threads.remove(&(t.tgid, t.tid));
-                    stats.underspec();
-                    stats.class("underspecified:connect-after-a-kernel-aborted-one");
-                    let key = sock_addr_audit_key::from_source_port(sport).to_array();
-                    unsafe { sim_map_delete(cs("audit_map").as_ptr(), key.as_ptr() as *const libc::c_void) };
-                } else {
-                    let key = sock_addr_audit_key::from_source_port(sport).to_array();
-                    let policy_now = policy.contains(&(p.ip, p.port));
-                    if let Some(v) = map_lookup("audit_map", &key) {
-                        if policy_now && policy_changed_in_flight {
-                            stats.underspec();
-                            stats.class("underspecified:policy-changed-between-the-hooks");
-                            unsafe { sim_map_delete(cs("audit_map").as_ptr(), key.as_ptr() as *const libc::c_void) };
-                        } else {
-                            return Outcome::fail(
-                                if skip.contains(&t.tgid) { "hook:record-for-agent-own-connect" } else { "hook:record-for-unredirected-connect" },
-                                format!("step {} {:?} by {:?}: audit record {:?} exists for source port {} although the connect to {}:{} was not redirected", step, op, t, v, sport, ip_to_string(p.ip), p.port),
-                            );
-                        }
-                    }
-                }
-            }
-            Op::Accept => {
-                if finished.is_empty() {
-                    continue;
-                }
-                let (sport, t, ip, port) = finished.remove(0);
-                expect_records.remove(&sport);
-                let key = sock_addr_audit_key::from_source_port(sport).to_array();
-                let raw = match map_lookup("audit_map", &key) {
-                    Some(v) => v,
-                    None => return Outcome::fail("hook:no-record-for-redirected-connect", format!("step {}: no audit record under the agent's key {:?} for the redirected connect of {:?} from source port {}", step, key, t, sport)),
-                };
-                // the agent's decode path (linux.rs lookup_audit)
-                let v = sock_addr_audit_entry::from_array(raw);
-                let entry = AuditEntry { logon_id: v.logon_id as u64, process_id: v.process_id, is_admin: v.is_root as i32, destination_ipv4: v.destination_ipv4, destination_port: v.destination_port as u16 };
-                let want_ip = std::net::Ipv4Addr::from(ip.to_ne_bytes());
-                if entry.logon_id != t.uid as u64 {
-                    let sig = if entry.logon_id == t.gid as u64 { "record:caller-id-is-the-group-id-not-the-user-id" } else { "record:wrong-user-id" };
-                    return Outcome::fail(sig, format!("step {}: record for {:?} states logon_id {} (uid {}, gid {})", step, t, entry.logon_id, t.uid, t.gid));
-                }
-                if entry.process_id != t.tgid {
-                    return Outcome::fail("record:wrong-process-id", format!("step {}: record for {:?} states process_id {}", step, t, entry.process_id));
-                }
-                if (entry.is_admin == 1) != (t.uid == 0) {
-                    return Outcome::fail("record:elevation-flag-does-not-follow-uid", format!("step {}: record for {:?} states is_admin {}", step, t, entry.is_admin));
-                }
-                if entry.destination_ipv4_addr() != want_ip || entry.destination_port_in_host_byte_order() != port {
-                    return Outcome::fail("record:original-destination-decoded-wrongly", format!("step {}: decoded {}:{} expected {}:{}", step, entry.destination_ipv4_addr(), entry.destination_port_in_host_byte_order(), want_ip, port));
-                }
-                unsafe { sim_map_delete(cs("audit_map").as_ptr(), key.as_ptr() as *const libc::c_void) };
-            }
-        }
-    }
-    // every record still expected must be there, and nothing else
-    for (sport, (t, _, _)) in &expect_records {
-        let key = sock_addr_audit_key::from_source_port(*sport).to_array();
-        if map_lookup("audit_map", &key).is_none() {
-            return Outcome::fail("hook:no-record-for-redirected-connect", format!("end of history: record for {:?} source port {} missing", t, sport));
-        }
-    }
-    let count = unsafe { sim_map_count(cs("audit_map").as_ptr()) } as usize;
-    if count != expect_records.len() {
-        return Outcome::fail("hook:unexpected-extra-audit-records", format!("{} records in the audit map, {} expected", count, expect_records.len()));
-    }
-    let uid_ne_gid = case.tasks.iter().any(|t| t.uid != t.gid);
-    if max_in_flight >= 2 && n_prot >= 1 && n_unprot >= 1 && uid_ne_gid {
-        stats.nontrivial_hash(h64(case));
-    }
-    stats.class_n("connects:protected", n_prot as u64);
-    stats.class_n("connects:unprotected", n_unprot as u64);
-    stats.sample(|| serde_json::to_value(case).unwrap());
-    Outcome::Pass
-}
-
-#[derive(Clone, Debug, Serialize, Deserialize, Hash)]
-struct IpCase {
-    ip: u32,
-}
-
-fn eval_ip(c: &IpCase, stats: &mut Stats) -> Outcome {
-    let s = ip_to_string(c.ip);
-    let b = c.ip.to_ne_bytes();
-    let want = format!("{}.{}.{}.{}", b[0], b[1], b[2], b[3]);
-    if s != want {
-        return Outcome::fail("encoding:ip_to_string", format!("{:#x} -> {} expected {}", c.ip, s, want));
-    }
-    if string_to_ip(&s) != c.ip {
-        return Outcome::fail("encoding:string_to_ip-round-trip", format!("{} -> {:#x} expected {:#x}", s, string_to_ip(&s), c.ip));
-    }
-    stats.class("ip-round-trip");
-    Outcome::Pass
-}
 
 fn main() {
     let params = Params::from_env();
@@ -383,6 +35,7 @@ fn main() {
     }
     let n = params.share(if th { 4_000_000 } else { 60_000 });
     Drive { params: &params, stats: &mut stats, known: &known }.run("c06.hooks", 6, strategy(), n, eval);
+    Drive { params: &params, stats: &mut stats, known: &known }.run_words("c06.hooks", "ebpf", |w| Some(case_from_words(w)), eval);
     let n = params.share(if th { 2_000_000 } else { 40_000 });
     Drive { params: &params, stats: &mut stats, known: &known }.run("c06.ip", 61, any::<u32>().prop_map(|ip| IpCase { ip }), n, eval_ip);
     let assumptions = ["user-space model of the documented helper/map semantics (linux/bpf.h): the BPF verifier, attachment and the kernel's real LRU approximation are outside it", "at most one connect in flight per thread; fewer connections in flight than the audit map's capacity (200)"];
